@@ -1,6 +1,6 @@
 """C16 -- control never runs off the end of a function.
 Family B: all statement trees up to a size bound over return / break / continue / if / while /
-while(true) / for(;;) / try-undo / try-stop / preempt / !is_defeat / !truth_is_defeat /
+while(true) / for with a non-constant condition and no break / for(;;) (curated) / try-undo / try-stop / preempt / !is_defeat / !truth_is_defeat /
 all_is_win / all_is_broken / defeat-function call, conditions drawn from input bits, as the
 body of a plain, you or defeat function, value-returning or empty.  Every statement is
 preceded by a distinct marker.  The function under test is followed in the emitted code by a
@@ -117,6 +117,10 @@ class Printer:
         if k == 'forever':
             return m + f'while (true) {{ {self.seq(s[1])}}} '
         if k == 'for':
+            # a loop with a non-constant condition and no break of its own: it may run zero times
+            q = f'q{self.n}'
+            return m + f'for (int {q} = 0; {q} < 2 and {self.cond()}; {q} += 1) {{ {self.seq(s[1])}}} '
+        if k == 'forinf':
             return m + f'for (;;) {{ {self.seq(s[1])}}} '
         if k == 'tryundo':
             return m + f'try {{ {self.seq(s[1])}}} undo {{ {self.seq(s[2])}}} '
@@ -168,7 +172,9 @@ R, B, C, M, W = ('R',), ('B',), ('C',), ('M',), ('W',)
 # larger bodies that are always included: loops in which continue, break and return/terminal paths meet
 CURATED = [
     (('forever', (('if', (C,)), R)),),
-    (('for', (('if', (M, C)), R)),),
+    (('forinf', (('if', (M, C)), R)),),
+    (('forinf', (R,)),),
+    (('forinf', (('if', (B,)), M)), R),
     (('forever', (('ifelse', (C,), (R,)),)),),
     (('forever', (('ifelse', (R,), (C,)),)),),
     (('while', (('if', (C,)), R)), R),
@@ -176,7 +182,7 @@ CURATED = [
     (('forever', (('forever', (('if', (B,)), C)), R)),),
     (('forever', (('if', (R,)), ('if', (C,)), W)),),
     (('forever', (('if', (C,)), ('if', (C,)), R)),),
-    (('for', (('while', (('if', (C,)), B)), ('if', (C,)), R)),),
+    (('forinf', (('while', (('if', (C,)), B)), ('if', (C,)), R)),),
     (('forever', (('if', (M, C)), M, ('if', (C,)), R)),),
     (('forever', (('ifelse', (('if', (C,)), R), (C,)),)),),
     (('while', (('forever', (('if', (C,)), R)),)), R),
